@@ -144,6 +144,13 @@ func c19RefCanClose(in, open *DescC19) bool {
 	return ref.CanClose(in.Type, open.Type, in.Event == open.Event, ptsEq, in.Num == in.Exp)
 }
 
+// c19Wrapped is another implementation of the SegmentationDescriptor interface
+// (a decorator): the relations are defined on the interface, not on one concrete type.
+type c19Wrapped struct {
+	scte35.SegmentationDescriptor
+	note string
+}
+
 func checkC19(c CaseC19, x *hx.Ctx) *hx.Failure {
 	ds := []*DescC19{&c.A, &c.B, &c.C}
 	var objs []scte35.SegmentationDescriptor
@@ -153,6 +160,23 @@ func checkC19(c CaseC19, x *hx.Ctx) *hx.Failure {
 			return f
 		}
 		objs = append(objs, o)
+	}
+	// the same relations with decorated arguments
+	for i, di := range ds {
+		for j, dj := range ds {
+			if i == j {
+				continue
+			}
+			w := c19Wrapped{SegmentationDescriptor: objs[j], note: "decorated"}
+			if ref.CloseRule(di.Type, dj.Type) != 'D' || (di.HasPTS && dj.HasPTS) {
+				if got, want := objs[i].CanClose(w), c19RefCanClose(di, dj); got != want {
+					return hx.Failf("canclose-decorated", "incoming %#x CanClose a decorated open descriptor of type %#x (event ids equal %v) = %v, rule table says %v", di.Type, dj.Type, di.Event == dj.Event, got, want)
+				}
+			}
+			if got, want := objs[i].Equal(w), c19RefEqual(di, dj); got != want {
+				return hx.Failf("equal-decorated", "Equal(%s, decorated %s) = %v, want %v", descKey(di), descKey(dj), got, want)
+			}
+		}
 	}
 	nt := false
 	for i := range ds {
